@@ -1,15 +1,19 @@
-"""Per-property configuration of the driver (tools/check.py)."""
+"""Per-property configuration of the driver: every props/<pkg>/prop.json
+describes one property (id, parts, fuzz targets, manifest texts)."""
+import glob
+import json
+import os
 
+ROOT = os.path.dirname(os.path.dirname(os.path.abspath(__file__)))
+
+# commits in /repo that add build-tag-guarded hooks (none so far)
 HOOK_COMMITS = []
 
+# properties deliberately not claimed, with reason (see DESIGN.md)
 NOT_APPLICABLE = []
 
-PROPS = {
-    "C15": dict(
-        pkg="props/c15",
-        parts=[dict(test="TestEqualEncoding", quick=12000, thorough=640000, shards_thorough=16)],
-        technique="property-based testing (rapid): generated single-field-mutation pairs, oracle Equal <=> identical encodings, Verify <=> identical encodings",
-        level_text="Random exploration of state pairs that differ in exactly one transmitted field (27 mutation kinds incl. index maps, backend ids, dimensions) with a two-directional oracle: the type's Equal agrees with byte equality of the native encodings, and a signature verifies for another state/key exactly when the encodings agree. Exploration, not proof: it shows that no structural field is ignored by comparison or signing on the generated shapes.",
-        level_note="Trusts Go's bytes.Equal and the sim backend's ECDSA; assumes well-formed (encodable) values; cryptographic collisions are out of reach of any generator.",
-    ),
-}
+PROPS = {}
+for f in sorted(glob.glob(os.path.join(ROOT, "props", "*", "prop.json"))):
+    d = json.load(open(f))
+    d["pkg"] = os.path.relpath(os.path.dirname(f), ROOT)
+    PROPS[d["id"]] = d
